@@ -112,6 +112,25 @@ def run_verus(path, extra=(), timeout=1800):
                 stderr=p.stderr, rc=p.returncode)
 
 
+def contract_index():
+    """(file, selector) -> [(slice, mode, contract hash)] over ALL slices of the framework (vx only, no Verus):
+    used to tell stubs whose contract is discharged in another slice (R7a) from plain assumptions (R7b)"""
+    idx = {}
+    d = os.path.join(BUILD, "index")
+    os.makedirs(d, exist_ok=True)
+    for f in sorted(glob.glob(os.path.join(VERIF, "slices", "*.vs"))):
+        name = os.path.basename(f)[:-3]
+        cmd = [VX, f, "--repo", REPO, "--out", os.path.join(d, name + ".rs"), "--map", os.path.join(d, name + ".map.json")]
+        for k, v in crate_dirs().items():
+            cmd += ["--crate-dir", "%s=%s" % (k, v)]
+        p = subprocess.run(cmd, capture_output=True, text=True)
+        if p.returncode != 0:
+            continue
+        for it in json.load(open(os.path.join(d, name + ".map.json")))["items"]:
+            idx.setdefault((it["file"], it["selector"]), []).append((name, it["mode"], it.get("contract")))
+    return idx
+
+
 def seg_for_line(m, line):
     best = None
     for s in m["segments"]:
@@ -458,6 +477,27 @@ def main(argv):
                 if not rw.startswith("R2") and not rw.startswith("R3"):
                     rewrites.append("%s %s: %s" % (it["file"], it["selector"], rw))
     trusted = sorted(set(t for r in results for t in r.get("trusted", [])))
+    # classify the stubs: R7a (same contract text verified in another slice) vs R7b (assumption)
+    cidx = contract_index()
+    stubs_r7a, stubs_r7b = [], []
+    for r in results:
+        sl = r.get("sl")
+        if not sl:
+            continue
+        for it in sl["map"]["items"]:
+            if it["mode"] != "trusted":
+                continue
+            others = [o for o in cidx.get((it["file"], it["selector"]), []) if o[1] == "verify"]
+            same = [o[0] for o in others if o[2] == it.get("contract")]
+            label = "%s %s" % (it["file"], it["selector"])
+            if same:
+                stubs_r7a.append("%s (verified with the same contract in slice %s)" % (label, same[0]))
+            elif others:
+                stubs_r7b.append("%s (verified in slice %s under a DIFFERENT contract text; here assumed)" % (label, others[0][0]))
+            else:
+                stubs_r7b.append("%s (not verified in any slice: assumption)" % label)
+    stubs_r7a = sorted(set(stubs_r7a))
+    stubs_r7b = sorted(set(stubs_r7b))
     samples = []
     for r in results:
         sl = r.get("sl")
@@ -488,6 +528,8 @@ def main(argv):
             functions_under_contract=under_contract,
             functions_verified=n_verify,
             functions_trusted_stub=len(under_contract) - n_verify,
+            stubs_discharged_elsewhere=stubs_r7a,
+            stubs_assumed=stubs_r7b,
             rewrites_applied=sorted(set(rewrites)),
             slices=[dict(name=r["name"], verified=(r.get("results") or {}).get("verified"), errors=(r.get("results") or {}).get("errors"),
                          wall_s=round(r["wall"], 1), canaries=r["canaries"], canaries_failed_as_expected=r["canaries_failed"],
